@@ -1476,9 +1476,12 @@ class SetItems(StackSliceOpcode):
         for key, value in zip(stack_slice[::2], stack_slice[1::2]):
             update_dict_keys.append(key)
             update_dict_values.append(value)
-        if isinstance(pydict, ast.Dict) and not pydict.keys:
-            # the dict is empty, so add a new one
-            interpreter.stack.append(ast.Dict(keys=update_dict_keys, values=update_dict_values))
+        if isinstance(pydict, ast.Dict):
+            # a dict display: add the items to that same node, so that every other reference to it (the memo,
+            # a container that already holds it) sees them too, as with the real dict
+            pydict.keys.extend(update_dict_keys)
+            pydict.values.extend(update_dict_values)
+            interpreter.stack.append(pydict)
         else:
             dict_name = interpreter.new_variable(pydict)
             update_dict = ast.Dict(keys=update_dict_keys, values=update_dict_values)
@@ -1501,9 +1504,11 @@ class SetItem(Opcode):
         value = interpreter.stack.pop()
         key = interpreter.stack.pop()
         pydict = interpreter.stack.pop()
-        if isinstance(pydict, ast.Dict) and not pydict.keys:
-            # the dict is empty, so add a new one
-            interpreter.stack.append(ast.Dict(keys=[key], values=[value]))
+        if isinstance(pydict, ast.Dict):
+            # a dict display: add the item to that same node (see SETITEMS)
+            pydict.keys.append(key)
+            pydict.values.append(value)
+            interpreter.stack.append(pydict)
         else:
             dict_name = interpreter.new_variable(pydict)
             assignment = ast.Assign(
